@@ -24,7 +24,7 @@ TECHNIQUE = "runtime monitoring: independent column parser + arithmetic oracle o
 
 def gen_cases(tier, seed):
     rnd = random.Random(f"C28-{seed}")
-    n = 32 if tier == "quick" else 320
+    n = 32 if tier == "quick" else 240
     cases = []
     for i in range(n):
         d = gs.gen_spec(rnd, rnd.choice(["mm1", "mv1", "chain2", "chain2", "fanin2", "mvchain2"] + (["chain3"] if tier != "quick" else [])),
